@@ -575,6 +575,8 @@ func main() {
 	for _, s := range scns {
 		scnNames = append(scnNames, s.Name)
 	}
+	os.Chdir("/")
+	os.RemoveAll(dir) // Finish exits the process: deferred calls do not run
 	r.Finish(map[string]any{
 		"states":                        len(digests),
 		"transitions":                   executions,
